@@ -717,7 +717,9 @@ def collect_objs(raw, want, results):
         objs = results.get(cid, {}).get("objs")
         if objs is not None:
             for o in objs:
-                o["parccs"] = objs[int(o["par"])]["ccs"] if (o["par"] or "-").isdigit() and int(o["par"]) < len(objs) else None
+                ok = (o["par"] or "-").isdigit() and int(o["par"]) < len(objs)
+                o["parccs"] = objs[int(o["par"])]["ccs"] if ok else None
+                o["partype"] = objs[int(o["par"])]["ty"] if ok else None
             io = {t: [] for t in IO_TYPES}
             for o in objs:
                 if o["ty"] in IO_TYPES:
@@ -729,7 +731,7 @@ def collect_objs(raw, want, results):
 
 
 def obj_matches(o, pat):
-    for k in ("ty", "nm", "st", "os", "parccs"):
+    for k in ("ty", "nm", "st", "os", "parccs", "partype"):
         if k in pat and o[k] != pat[k]:
             return False
     if "at" in pat and pat["at"] not in o["at"]:
@@ -1329,6 +1331,84 @@ def corrupt_cases(run, pool, snaps):
     return cases
 
 
+def node_mutation_cases(run, pool, snaps):
+    """Hostile and corner-case contents for everything look_sysfsnode reads (cpumaps overlapping or empty, distance rows
+    short / without newline / in other bases, node/online variants, directories named node01 / nodeabc, initiator and
+    memory-side-cache entry names that sscanf/atoi read differently from what they look like), 1 to 4 mutations per case
+    on the snapshots with several NUMA nodes: the model of Text/LinuxNode.v must predict every memory request."""
+    rng = run.rng
+    quick = run.tier == "quick"
+    multi = []
+    for snap in snaps:
+        if snap.kind != "linux":
+            continue
+        rem = removable_of(pool, snap)
+        nodes = sorted(int(m.group(1)) for p in rem for m in [re.search(r"sys/devices/system/node/node(\d+)/cpumap$", p)] if m)
+        if len(nodes) >= 2 and len(nodes) <= 17 and "KNL" not in snap.name and "nvidia" not in snap.name:
+            multi.append((snap, nodes))
+    cases = []
+    if not multi:
+        return cases
+    total = 120 if quick else 2500
+    nd = "sys/devices/system/node/"
+    for k in range(total):
+        snap, nodes = multi[(run.seed + k) % len(multi)]
+        comps, env, filters, flags = gen_config(rng, snap, plain=True)
+        env = dict(env)
+        env["_light"] = "1"
+        if rng.random() < 0.3:
+            env["HWLOC_DEBUG_ALLOW_OVERLAPPING_NODE_CPUSETS"] = rng.choice(["0", "1", "2", "-1", "x"])
+        if rng.random() < 0.2:
+            env["HWLOC_USE_NUMA_DISTANCES"] = rng.choice(["0", "1", "2", "3", "4", "7"])
+        if rng.random() < 0.3:
+            env["HWLOC_HIDE_ERRORS"] = "2"
+        filters = ["filter 15 0"] if rng.random() < 0.6 else []
+        ops = []
+        n = len(nodes)
+        for _ in range(rng.choice([1, 1, 2, 3, 4])):
+            a, b = rng.choice(nodes), rng.choice(nodes)
+            kind = rng.choice(["cpumap", "cpumap", "distance", "distance", "distance", "online", "dirname", "initiator", "msc", "cmdline"])
+            if kind == "cpumap":
+                txt = rng.choice(["00000000,00000000", "0", "", "%08x,%08x" % (rng.getrandbits(32), rng.getrandbits(32)), "%x" % (1 << rng.randrange(64)),
+                                  "ffffffff,ffffffff", "garbage", "0x3"]) + rng.choice(["\n", "\n", ""])
+                ops.append(G.put(nd + "node%d/cpumap" % a, txt))
+            elif kind == "distance":
+                vals = [str(rng.choice([10, 10, 11, 20, 21, 31, 40, 254, 4294967295, 4294967296, 0])) for _ in range(n)]
+                form = rng.random()
+                if form < 0.25:
+                    vals = vals[:rng.randrange(n)]
+                elif form < 0.4:
+                    vals = vals + ["99"]
+                elif form < 0.5:
+                    vals[rng.randrange(n)] = rng.choice(["0x15", "012", "-1", "+7", "x", "1e3"])
+                sep = rng.choice([" ", " ", "  ", "\t", ","])
+                ops.append(G.put(nd + "node%d/distance" % a, sep.join(vals) + rng.choice(["\n", "\n", "\n", "", " \n"])))
+            elif kind == "online":
+                txt = rng.choice(["0-%d" % (n - 1), "0", "%d" % nodes[-1], "0,%d" % nodes[-1], "", "\n", "0-%d" % (n + 1), "%d-%d" % (nodes[-1], nodes[0]), "99", "garbage"])
+                ops.append(G.put(nd + "online", txt + rng.choice(["\n", ""])))
+            elif kind == "dirname":
+                nm = rng.choice(["node0%d" % a, "node0x%x" % a, "nodeabc", "node", "node %d" % a, "node%dbis" % a, "node+%d" % a, "node99", "Node7"])
+                ops.append(G.put(nd + nm + "/cpumap", rng.choice(["0\n", "%x\n" % (1 << rng.randrange(32)), ""])))
+            elif kind == "initiator":
+                acc = rng.choice(["access0", "access1"])
+                nm = rng.choice(["node%d" % b, "node0%d" % b, "node %d" % b, "node-1", "node%dx" % b, "node99", "nodes", "verif_latency", "node4294967296", "node+%d" % b])
+                ops.append(G.put(nd + "node%d/%s/initiators/%s/x" % (a, acc, nm), "1\n"))
+            elif kind == "msc":
+                nm = rng.choice(["index1", "index2", "index01", "index-1", "indexabc", "index2x", "index", "Index1", "index 3", "index4294967297"])
+                m = re.match(r"index\s*([-+]?\d+)", nm)
+                depth = (int(m.group(1)) % (1 << 32)) if m else 0      # where the backend will look for the files
+                base = nd + "node%d/memory_side_cache/" % a
+                ops.append(G.put(base + nm + "/marker", "x\n"))
+                for fn, val in (("size", rng.choice(["1073741824", "0", "18446744073709551616", "12x", ""])), ("line_size", rng.choice(["64", "0", "x", "4294967297"])),
+                                ("indexing", rng.choice(["0", "1", "2", ""]))):
+                    if rng.random() < 0.85:
+                        ops.append(G.put(base + "index%d/%s" % (depth, fn), val + "\n"))
+            else:
+                ops.append(G.put("proc/cmdline", rng.choice(["numa=fake=2U\n", "numa=fake=4\n", "quiet numa=fake=8U x\n", "numa=off\n"])))
+        cases.append(("node-mutation", (snap, comps, env, filters, rng.choice([0, 0, 128, 256]), ops)))
+    return cases
+
+
 def select_snapshots(run):
     lin = [Snap(t) for t in S.snapshots("linux")]
     x86 = [Snap(t) for t in S.snapshots("x86")]
@@ -1371,6 +1451,7 @@ def check_snapshots(run, snapexe, drv, replay_case=None):
         labelled += scenario_cases(run, allsnaps)
         labelled += equiv_cases(run, allsnaps)
         labelled += corrupt_cases(run, pool, allsnaps)
+        labelled += node_mutation_cases(run, pool, allsnaps)
         run.cov["snapshots_used"] = sorted(s.rel for s in snaps)
         # judge per label so that the evidence shows the distribution
         cases = [c for _, c in labelled]
